@@ -250,7 +250,7 @@ Verdict judgeMisc(const Case& c) {
 
 Case genPath() {
   Case c;
-  int64_t M = G::oneOf(std::vector<int64_t>{3, 8, 50, 1000, 1 << 20, int64_t(1) << 30});
+  int64_t M = G::oneOf(std::vector<int64_t>{3, 8, 50, 1000, 1 << 20, int64_t(1) << 30, int64_t(1) << 30, int64_t(1) << 34, int64_t(1) << 39});   // (squares of differences leave 64 bits above 2^31.5)
   int kind = (int)G::range(0, 3);
   GEN::DegPool pool;
   Path64 p;
